@@ -118,11 +118,22 @@ func readLongStr(r io.Reader) (v string, err error) {
 		return
 	}
 
-	bytesValue := make([]byte, length)
-	if _, err = io.ReadFull(r, bytesValue); err != nil {
+	var bytesValue []byte
+	if bytesValue, err = readBytes(r, int64(length)); err != nil {
 		return
 	}
 	return string(bytesValue), nil
+}
+
+// readBytes reads exactly n bytes. The buffer grows with the data that actually arrives, so
+// a length field alone cannot make the dissector allocate what the stream does not hold.
+func readBytes(r io.Reader, n int64) ([]byte, error) {
+	var buf bytes.Buffer
+	read, err := io.CopyN(&buf, r, n)
+	if err == io.EOF && read > 0 {
+		err = io.ErrUnexpectedEOF
+	}
+	return buf.Bytes(), err
 }
 
 func readDecimal(r io.Reader) (v Decimal, err error) {
@@ -236,8 +247,12 @@ func readField(r io.Reader) (v interface{}, err error) {
 			return nil, err
 		}
 
-		value := make([]byte, lenVal)
-		if _, err = io.ReadFull(r, value); err != nil {
+		if lenVal < 0 {
+			return nil, ErrSyntax
+		}
+
+		var value []byte
+		if value, err = readBytes(r, int64(lenVal)); err != nil {
 			return nil, err
 		}
 		return value, err
